@@ -66,8 +66,11 @@ def r_event(e):
         op = "filt %s %s %s %s" % (zi(e["b"]["h"]), zi(e["b"]["hash"]), zi(e["b"]["t"]),
                                    clist(["(%d, %s)" % (t[0], cbool(bool(t[1]))) for t in e.get("txs") or []]))
     elif k == "startup":
-        op = "CStartup %s %s %s" % (cbool(e.get("first", False)), r_segs(e["backend"]),
-                                    r_meta(e.get("loc") or dict(h=0, hash=0, t=0)))
+        op = "CStartup %s %s %s %s %s" % (
+            cbool(e.get("first", False)), cbool(e.get("recover", False)), r_segs(e["backend"]),
+            r_meta(e.get("loc") or dict(h=0, hash=0, t=0)),
+            clist(["rt %d %s %s %s %s" % (t["tx"], cbool(t.get("cb", False)), zi(t["b"]["h"]), zi(t["b"]["hash"]), zi(t["b"]["t"]))
+                   for t in e.get("rtxs") or []]))
     elif k == "rescan_progress":
         op = "CRescanProgress %s %s" % (r_segs(e["backend"]), zi(e.get("height", 0)))
     elif k == "rescan_finished":
@@ -110,8 +113,11 @@ class C15(Check):
             "eight; (c) a quarter of the offline periods end with the backend LOWER than the wallet (a proper prefix of its chain, or "
             "another branch): the failed attempt is observed, then the backend catches up in one or two steps; (d) fork points below "
             "the heights the wallet stores (below a first synchronisation's birthday block): the attempt fails for ever, the case "
-            "ends; one chain longer than MaxReorgDepth per run (six in the thorough tier).  Eight fixed inputs (S1 witness, one per "
-            "start-up path, NotifyBlocks failing once after the first synchronisation's transaction) and corpus/C15 run first. "
+            "ends; (e) one case in five opens the wallet with a recovery window of 3-20 for every start-up (Wallet.recovery then runs "
+            "inside syncWithChain and moves synced-to itself; the wallet transactions of the backend's chain are given to the model, "
+            "which picks the ones recovery scans); one chain longer than MaxReorgDepth per run (six in the thorough tier).  Ten fixed "
+            "inputs (S1 and S16 witnesses, one per start-up path, NotifyBlocks failing once after the first synchronisation's "
+            "transaction) and corpus/C15 run first. "
             "non-trivial = a reorganisation (online or offline) that replaces a block holding a wallet transaction, a first "
             "synchronisation, or a failed start-up attempt; distinct by input")
     N_QUICK = 260
@@ -122,6 +128,10 @@ class C15(Check):
         "the transaction store is modelled only as the set of (txid, confirming block) / unconfirmed facts; wallet transactions of the "
         "harness never conflict with each other (removeDoubleSpends is outside the model)",
         "heights, times within int32/uint32 (no wrap-around)",
+        "recovery (start-up with a recovery window) is modelled as one transaction that records the wallet transactions of the scanned "
+        "blocks and calls SetSyncedTo block by block (the code commits batches of 2000 blocks; only the first block's SetSyncedTo "
+        "can fail); which transactions its block filter finds is property C16's business (the harness's transactions all pay issued "
+        "addresses)",
         "first synchronisation: which block locateBirthdayBlock returns is property C16's business; the model takes the returned "
         "block as given (the harness asks the same function on the same backend) and the theorems need only 0 <= its height <= "
         "backend tip; a stored but unverified birthday block (birthdaySanityCheck relocating it, wallets migrated from before the "
@@ -134,6 +144,12 @@ class C15(Check):
         "(the race named in the TODO of catchUpHashes) is outside the property's notification kinds and not generated",
     ]
     PARTIAL_CLAUSES = [
+        "finding S16 (known_findings.json, kind startup_recovery_skips_rollback): with a recovery window, recovery runs BEFORE the "
+        "rollback loop (Generated/SyncFacts.v recovery_before_rollback = true); after an offline reorganisation that also made the "
+        "chain higher the attempt succeeds without rolling anything back (C15_startup_recovery_before_rollback_partial: the wallet "
+        "is consistent with its OLD branch plus the backend's blocks on top).  C15_startup_recovery_after_rollback is the statement "
+        "for the other order (proposed fix corpus/C15/s16_fix_proposed.diff); C15_startup_with_recovery_window_as_built follows the "
+        "regenerated fact",
         "start-up against a backend whose best chain is LOWER than the wallet's synced-to height (C15_startup_backend_lower_partial): "
         "the attempt fails in the first GetBlockHash and changes nothing; the wallet does not roll back to the last common block "
         "until an attempt finds the backend at least as high (then C15_startup_rollback applies); exercised: failed attempt "
@@ -148,7 +164,9 @@ class C15(Check):
     EXTRA_TRUSTED = ["lib/extract_c15.py: go/ast reading of disconnectBlock (incremental stamp or single literal) and of "
                      "MaxReorgDepth / staleHeight; when a shape is not recognised the fact is determined by running the witness "
                      "scenario (connect 1..n, disconnect n, read back SyncedTo / BlockHash; prune boundary) on the code built "
-                     "from the repository (harness/cmd/probe-c15); evidence field facts_source says which path ran",
+                     "from the repository (harness/cmd/probe-c15); evidence field facts_source says which path ran; the order of "
+                     "w.recovery and the rollback-loop transaction among the top-level statements of syncWithChain (no fallback: an "
+                     "unrecognised shape is a broken obligation)",
                      "harness/cmd/c15: the barrier protocol on the notification channel (a notification is taken as processed when "
                      "the goroutine accepts the next value) and the attempt gate in BackEnd() rely on handleChainNotifications "
                      "reading one notification at a time and on syncWithChain being the only caller of BackEnd()"]
@@ -184,7 +202,7 @@ class C15(Check):
 
     def nontrivial(self, c):
         t = set(c.get("tags", []))
-        return bool(t & {"wallet_tx_in_replaced_block", "offline_reorg_of_wallet_tx_block", "first_sync", "startup_attempt_failed"})
+        return bool(t & {"wallet_tx_in_replaced_block", "offline_reorg_of_wallet_tx_block", "first_sync", "startup_attempt_failed", "startup_with_recovery_window"})
 
     def sample(self, c):
         evs = c["obs"]["events"]
